@@ -1085,8 +1085,7 @@ class XRandSpec(PureSpec):
     def always(self):
         # ranges that end at the largest int with reservoirs of a few thousand: the running index of Algorithm L gets close
         # to 2^63 there (the skips grow like n/k) and must not wrap around
-        return [["xrand.Sample", n, k, sd] for n, k in ((MAXINT, 1024), (MAXINT, 4096), (MAXINT - 1, 2048), (2 ** 62, 4096), (2 ** 63 - 2 ** 40, 3000))
-                for sd in (0, 1)]
+        return [["xrand.Sample", MAXINT, 1024, 0], ["xrand.Sample", MAXINT, 1024, 1], ["xrand.Sample", MAXINT - 1, 1500, 0], ["xrand.Sample", 2 ** 62, 1200, 2]]
 
     def universes(self, rng, tier):
         u = {}
@@ -1095,7 +1094,8 @@ class XRandSpec(PureSpec):
         reps = 3 if tier == "quick" else 40
         u["xrand.Sample"] = ([["xrand.Sample", n, k, seeds()] for n, k in nk for _ in range(reps)] +
                              [["xrand.Sample", n, k, -1] for n, k in nk] + [["xrand.Sample", 5, -1, 1], ["xrand.Sample", -1, 2, 1], ["xrand.Sample", -3, 0, 1]],
-                             [["xrand.Sample", n, k, seeds()] for n, k in ((1000, 10), (100, 99), (10 ** 6, 3), (50, 50), (50, 70), (MAXINT, 4), (2 ** 40, 20))])
+                             [["xrand.Sample", n, k, seeds()] for n, k in ((1000, 10), (100, 99), (10 ** 6, 3), (50, 50), (50, 70), (MAXINT, 4), (2 ** 40, 20),
+                                                                                          (MAXINT, 4096), (MAXINT - 1, 2048), (2 ** 63 - 2 ** 40, 3000), (2 ** 62, 4096))])
         items = lambda n: [10 * (i + 1) + 1 for i in range(n)]      # pairwise distinct items
         for fn in ("SampleSlice", "SampleIterator"):
             u["xrand." + fn] = ([["xrand." + fn, items(n), k, seeds()] for n, k in nk for _ in range(reps)] +
